@@ -3,6 +3,7 @@
 From Coq Require Import String.
 From Coq Require Import List NArith ZArith Bool.
 From MPS Require Import Model.Bytes Model.Framing.
+From MPS Require Model.Cbor.   (* utf8_valid *)
 Import ListNotations.
 
 (* Go string comparison: bytewise lexicographic *)
@@ -51,11 +52,13 @@ Definition max_uint32 : Z := 4294967295.
 (* order of the only group offered (secp256k1): an ID is an evaluation point = its bytes as a big-endian integer mod q *)
 Definition group_order : N := 115792089237316195423570985008687907852837564279074904382605163141518161494337.
 
-(* an ID must be non-empty and, when a group is given, must not map to the zero scalar *)
+(* an ID must be non-empty, valid UTF-8 (it travels as text in protocol.Message) and, when a group is given,
+   must not map to the zero scalar *)
 Definition id_ok (grp : option bytes) (id : bytes) : bool :=
   match id with
   | [] => false
-  | _ => match grp with
+  | _ => Cbor.utf8_valid id &&
+         match grp with
          | None => true
          | Some _ => negb ((be_val id mod group_order =? 0)%N)
          end
